@@ -669,6 +669,28 @@ def r09_5(ctx):
                             e = enum_edge(b, sb, 0)
                             if e and b.edge_dominates(e[0], e[1], e[2], bi):
                                 ok = True
+        if not ok:
+            # `from.map_or_else(|| detect(..), |f| Ok(Some(f)))?.ok_or(TEXT)`: the Option can only be None when it is
+            # detection's own answer (the other closure always yields Some)
+            bt = b.blocks[bi]["term"]
+            if bt["k"] == "call" and (fn_of(bt) or {}).get("def") in ("std::option::Option::<T>::ok_or", "std::option::Option::<T>::ok_or_else") and any(a.get("str") == TEXT for a in bt["args"][1:]):
+                tr = trace(b, bt["args"][0])
+                if tr.origin and tr.origin[0] == "call" and (fn_of(tr.origin[2]) or {}).get("def") == "std::option::Option::<T>::map_or_else" and any(st[0] == "downcast" and st[1] in ("Continue", "Ok") for st in tr.steps):
+                    kinds = []
+                    for cid in (fn_of(tr.origin[2]) or {}).get("closures", []):
+                        cbody = lib.by_id.get(cid)
+                        if cbody is None:
+                            kinds.append(None)
+                            continue
+                        r0 = trace(cbody, {"k": "copy", "p": {"l": 0, "pr": []}})
+                        if r0.origin and r0.origin[0] == "call" and ((fn_of(r0.origin[2]) or {}).get("resolved") or (fn_of(r0.origin[2]) or {}).get("def")) == det.id and all(st[0] == "use" for st in r0.steps):
+                            kinds.append("detect")
+                        elif r0.origin and r0.origin[0] == "agg" and r0.origin[1]["rv"].get("variant") == "Ok" and r0.origin[1]["rv"]["ops"]:
+                            inner = trace(cbody, r0.origin[1]["rv"]["ops"][0])
+                            kinds.append("some" if inner.origin and inner.origin[0] == "agg" and inner.origin[1]["rv"].get("variant") == "Some" else None)
+                        else:
+                            kinds.append(None)
+                    ok = "detect" in kinds and all(k_ in ("detect", "some") for k_ in kinds)
         if not ok and b.raw["def_kind"] == "Closure" and b.raw.get("parent") in lib.by_id:
             # `detect(..)?.ok_or_else(|| TEXT.into())`: the closure holding the text runs only on None
             pb = lib.by_id[b.raw["parent"]]
@@ -798,7 +820,17 @@ def r09_9(ctx):
                 sb = sup.body_of(sn)
                 tr = strace(sup, sn, t["discr"], extra=("std::result::Result::<T, E>::is_ok", "std::result::Result::<T, E>::is_err", "std::option::Option::<T>::is_some", "std::option::Option::<T>::is_none"))
                 via = [s_[1].rsplit("::", 1)[-1] for s_ in tr.steps if s_[0] == "call"]
-                if tr.origin and tr.origin[0] == "call":
+                size_helper = None
+                if tr.origin and tr.origin[0] == "call" and (fn_of(tr.origin[2]) or {}).get("local"):
+                    # a same-crate predicate that is nothing but a length comparison (`CUTOFF.reached_by(prefix)`)
+                    hb_ = lib.by_id.get((fn_of(tr.origin[2]) or {}).get("resolved") or (fn_of(tr.origin[2]) or {}).get("def"))
+                    if hb_ is not None and hb_.local_ty(0) == "bool":
+                        rds_ = hb_.whole_defs(0)
+                        if len(rds_) == 1 and rds_[0][2] == "assign" and rds_[0][3]["rv"]["k"] == "binop" and rds_[0][3]["rv"]["op"] in ("Ge", "Gt", "Lt", "Le", "Eq", "Ne") and any((fn_of(tt_) or {}).get("name") == "len" for _, tt_ in hb_.calls()):
+                            size_helper = rds_[0][3]["rv"]["op"]
+                if size_helper is not None:
+                    desc = ("cmp", size_helper)
+                elif tr.origin and tr.origin[0] == "call":
                     cdef = (fn_of(tr.origin[2]) or {}).get("def", "?")
                     if tr.has("discr"):
                         ty = sup.body_of(tr.origin_node).local_ty(tr.origin[2]["dest"]["l"])
